@@ -33,6 +33,7 @@ def run(ids, tier="quick", seeds=("1",)):
     subprocess.run(["rsync", "-a", "--delete", os.path.join(HERE, "lean") + "/", lean_copy + "/"], check=True)
     os.environ["VERIF_LEAN"] = lean_copy
     os.environ["VERIF_SCRATCH"] = "/var/tmp/asl-verif-seeded"
+    os.environ["VERIF_OUT"] = "/var/tmp/asl-verif-seeded/out"
     try:
         return _run(ids, tier, seeds, rows)
     finally:
